@@ -1,6 +1,7 @@
 // C19 — permessage-deflate: lossless round trip, bounded memory, legal negotiation.
 // The real websocket.c + compression.c + vendored zlib (symbols prefixed cjz_) form the server endpoint; the other endpoint
 // is this harness with the *system* zlib. Every case runs in a forked child under ASan/UBSan/LSan.
+#include "../fw/deadline.hpp"
 #include "../fw/codec.hpp"
 #include "../fw/json.hpp"
 #include "../fw/scenario.hpp"
@@ -318,6 +319,7 @@ int main(int argc, char **argv)
 	                          rc::gen::weightedElement<int>({{12, 0}, {1, 1}, {1, 2}, {1, 3}}), R(0, 100000));
 	Case last; Result lastr; bool have = false;
 	bool ok = rc::check("C19", [&]() {
+			if (budget::over()) { budget::skipped()++; return; }
 		Case c; c.level = *rc::gen::resize(100, rc::gen::element<int>(1, 2, 3, 0));
 		c.offer = *offer; c.msgs = *rc::gen::container<std::vector<Msg>>(msg);
 		Result r = run_forked(c);
